@@ -9,6 +9,32 @@ from .base import (
 from .symex import Raise, dotted
 
 
+FIDX = z3.Function("ghost_filter_src_index", SeqI, I, I, I)  # (source value, comprehension id, result index) -> source index
+RIDX = z3.Function("ghost_filter_res_index", SeqI, I, I, I)  # (source value, comprehension id, source index) -> result index
+
+
+def comp_id(text):
+    from .base import intern
+    return intern("comp", text)
+
+
+def filter_map_axioms(seq, rs, cid, P, f):
+    """rs == [f(j) for j in range(len(seq)) if P(j)] (P, f given on source *indices*): an order-preserving bijection
+    between the result indices and the source indices that satisfy P."""
+    i, i2, j = z3.Int("i!fm"), z3.Int("i2!fm"), z3.Int("j!fm")
+    n, m = z3.Length(seq), z3.Length(rs)
+    fi = lambda x: FIDX(seq, cid, x)
+    ri = lambda x: RIDX(seq, cid, x)
+    return [
+        m <= n,
+        z3.ForAll([i], z3.Implies(z3.And(i >= 0, i < m), z3.And(fi(i) >= 0, fi(i) < n, P(fi(i)), rs[i] == f(fi(i)))), patterns=[fi(i)]),
+        z3.ForAll([i, i2], z3.Implies(z3.And(i >= 0, i < i2, i2 < m), fi(i) < fi(i2)), patterns=[z3.MultiPattern(fi(i), fi(i2))]),
+        z3.ForAll([j], z3.Implies(z3.And(j >= 0, j < n, P(j)), z3.And(ri(j) >= 0, ri(j) < m, fi(ri(j)) == j)), patterns=[ri(j), seq[j]]),
+        # ground instance for the first element (the one `if result:` style tests need)
+        z3.Implies(m > 0, z3.And(fi(z3.IntVal(0)) >= 0, fi(z3.IntVal(0)) < n, P(fi(z3.IntVal(0))), rs[0] == f(fi(z3.IntVal(0))))),
+    ]
+
+
 class CallMixin:
     def e_Call(self, st, node):
         text = dotted(node.func)
@@ -193,7 +219,7 @@ class CallMixin:
         seq = st.get("list", recv.t)
         x = self.to_ref(st, args[0])
         self.oblige(st, "list.index#%d.list_has_no_repeated_elements" % self.ordinal("lindex"), distinct_elements(seq, recv.t), kind="callsite")
-        p = LIST_INDEX(recv.t, x)
+        p = LIST_INDEX(seq, x)
         out = []
         for s, has in self.fork(st, z3.And(p >= 0, p < z3.Length(seq), seq[p] == x), "index_found"):
             if has:
@@ -310,6 +336,9 @@ class CallMixin:
         raise Unsupported("comprehension over %r" % (src,))
 
     def list_comp(self, st, node, gen, src):
+        """[elt for target in src if conds] with a pure element and pure conditions.
+        Without conditions: pointwise map.  With conditions: the exact filter-map semantics through two ghost index
+        functions keyed by the source sequence value and the comprehension text (see filter_map_axioms)."""
         j = z3.Int("j!lc%d" % self.ordinal("lc"))
         env, seq = self.bind_target(st, gen.target, src, j)
         conds = [self.pure_truth(st, self.pure(st, c, env)) for c in gen.ifs]
@@ -322,13 +351,31 @@ class CallMixin:
         if not gen.ifs:
             st.assume(z3.Length(rs) == n, z3.ForAll([j], z3.Implies(inr, rs[j] == elt)))
         else:
-            w = fresh("w")
-            st.assume(z3.Length(rs) <= n)
-            st.assume(z3.Implies(z3.Length(rs) > 0, z3.And(w >= 0, w < n, z3.substitute(P, (j, w)),
-                                                          rs[0] == z3.substitute(elt, (j, w)))))
-            st.assume(z3.Implies(z3.Length(rs) == 0, z3.ForAll([j], z3.Implies(inr, z3.Not(P)))))
+            cid = comp_id(ast.unparse(node))
+            st.assume(*filter_map_axioms(seq, rs, cid, lambda x: z3.substitute(P, (j, x)), lambda x: z3.substitute(elt, (j, x))))
         r.py = "list"
         return r
+
+    def e_SetComp(self, st, node):
+        """{elt for target in src if conds}: membership is exactly 'some source element satisfying the conditions maps to it'."""
+        if len(node.generators) != 1:
+            raise Unsupported("nested set comprehension")
+        gen = node.generators[0]
+        out = []
+        for s, src in self.eval(st, gen.iter):
+            if isinstance(src, Raise):
+                out.append((s, src))
+                continue
+            j = z3.Int("j!sc%d" % self.ordinal("sc"))
+            x = z3.Int("x!sc")
+            env, seq = self.bind_target(s, gen.target, src, j)
+            conds = [self.pure_truth(s, self.pure(s, c, env)) for c in gen.ifs]
+            elt = self.to_ref(s, self.pure(s, node.elt, env))
+            r = self.new_set(s, fresh("scmem", z3.ArraySort(I, B)))
+            mem = s.get("set", r.t)
+            s.assume(z3.ForAll([x], z3.Select(mem, x) == z3.Exists([j], z3.And([j >= 0, j < z3.Length(seq)] + conds + [elt == x]))))
+            out.append((s, r))
+        return out
 
     def e_DictComp(self, st, node):
         if len(node.generators) != 1:
